@@ -287,6 +287,34 @@ func (c *fctx) assignSpecial(e *emitter, ind int, st *ast.AssignStmt) bool {
 		c.assignTo(e, ind, st.Lhs[1], t+".2.1", define)
 		return true
 	}
+	// ct, err := rsa.EncryptOAEP(sha256.New(), rand.Reader, pub, msg, label): abstract, draws its seed from the tape
+	// pt, err := rsa.DecryptOAEP(sha256.New(), rand.Reader, priv, ct, label): abstract (the random source only blinds)
+	if f, ok := obj.(*types.Func); ok && f.Pkg() != nil && f.Pkg().Path() == "crypto/rsa" && (f.Name() == "EncryptOAEP" || f.Name() == "DecryptOAEP") && len(st.Lhs) == 2 && len(call.Args) == 5 {
+		if c.t.pr.text(c.fi.Pkg, call.Args[0]) != "sha256.New()" || c.t.pr.text(c.fi.Pkg, call.Args[1]) != "rand.Reader" {
+			c.fail(st, "rsa.%s with a hash other than sha256.New() or a random source other than rand.Reader", f.Name())
+		}
+		kt := c.leanType(st, c.typeOf(call.Args[2]))
+		t := c.tmp()
+		if f.Name() == "EncryptOAEP" {
+			if c.tapeVar == nil {
+				c.fail(st, "rsa.EncryptOAEP in a function without an explicit tape")
+			}
+			c.useAbstractName("rsa_EncryptOAEP_sha256", "(rsa_EncryptOAEP_sha256 : τ → "+kt+" → (List UInt8) → (List UInt8) → Go.M ((List UInt8) × (Option Go.Err) × τ))")
+			tp := c.nameOf(c.tapeVar)
+			e.add(ind, fmt.Sprintf("let %s ← rsa_EncryptOAEP_sha256 %s %s %s %s", t, tp, c.expr(call.Args[2]), c.expr(call.Args[3]), c.expr(call.Args[4])))
+			e.add(ind, fmt.Sprintf("%s := %s.2.2", tp, t))
+		} else {
+			c.useAbstractName("rsa_DecryptOAEP_sha256", "(rsa_DecryptOAEP_sha256 : "+kt+" → (List UInt8) → (List UInt8) → Go.M ((List UInt8) × (Option Go.Err)))")
+			e.add(ind, fmt.Sprintf("let %s ← rsa_DecryptOAEP_sha256 %s %s %s", t, c.expr(call.Args[2]), c.expr(call.Args[3]), c.expr(call.Args[4])))
+		}
+		c.assignTo(e, ind, st.Lhs[0], t+".1", define)
+		if f.Name() == "EncryptOAEP" {
+			c.assignTo(e, ind, st.Lhs[1], t+".2.1", define)
+		} else {
+			c.assignTo(e, ind, st.Lhs[1], t+".2", define)
+		}
+		return true
+	}
 	// an abstract callee that takes and hands back state
 	if f, ok := obj.(*types.Func); ok && c.isAbstract(f) && c.spec != nil && len(c.spec.threaded[f.Pkg().Name()+"."+f.Name()]) > 0 {
 		tv := c.threadedVars(call)
